@@ -85,7 +85,7 @@ def plan(ctx, tier):
         reps = 1
     else:
         profs = PROFILES
-        reps = 18
+        reps = 24
     scs, db = [], 1
     for r in range(reps):
         for p in profs:
